@@ -42,3 +42,17 @@ Qed.
 
 Lemma trn_path_eq_file ts : write_trn_path ts = write_trn_file ts.
 Proof. reflexivity. Qed.
+
+From PV Require Import C11.ProofsTrn.
+
+(* write through the path entry point, read back through either entry point with any number of
+   workers, any chunk size and any completion order *)
+Lemma trn_roundtrip_workers ts processes sched chunk :
+  trn_okb ts = true ->
+  (forall i, (i < length (lines (write_trn_path ts)))%nat -> In i sched) ->
+  read_trn_file processes sched chunk (write_trn_path ts) = Ok ts
+  /\ read_trn_path processes sched chunk (write_trn_path ts) = Ok ts.
+Proof.
+  intros Hok Hs. destruct (workers_irrelevant processes sched chunk _ Hs) as [H1 H2].
+  rewrite H1, H2. unfold write_trn_path. rewrite (trn_roundtrip ts Hok). split; reflexivity.
+Qed.
